@@ -62,11 +62,11 @@ def stream_env(ip):
             return True
         return NotImplemented
     def wait_for(ip_, args, kw, ctx):
-        """E8: asyncio.wait_for(aw, timeout) returns aw's result, or raises TimeoutError after cancelling aw - a cancelled stream
+        """E9: asyncio.wait_for(aw, timeout) returns aw's result, or raises TimeoutError after cancelling aw - a cancelled stream
         read has consumed nothing: the reply (arriving later) is still the next thing the connection delivers"""
         from pyvc.interp import Builtin as _B
         aw = args[0] if args else kw.get("fut")
-        ctx.used_models.add("E8: asyncio.wait_for returns the awaited result or raises TimeoutError leaving a cancelled stream read unconsumed")
+        ctx.used_models.add("E9: asyncio.wait_for returns the awaited result or raises TimeoutError leaving a cancelled stream read unconsumed")
         if ctx.fork(2) == 0:
             return aw
         if ctx.ghost.events and ctx.ghost.events[-1][0] == "read" and ctx.ghost.events[-1][1] is aw:
